@@ -176,8 +176,20 @@ def collect_garbage():
     # process: computed divisions (skips the hidden quantile compute on a hit) and the cached
     # module-level RandomState behind da.random.<function>
     m = sys.modules.get("dask.dataframe.dask_expr._shuffle")
-    if m is not None and hasattr(m, "divisions_lru"):
-        m.divisions_lru.data.clear()
+    # (best effort: a change to dask may have given these another shape; the harness must not fail
+    # on that -- whatever state then survives is covered by the run-history replay)
+    try:
+        if m is not None and hasattr(m, "divisions_lru"):
+            m.divisions_lru.data.clear()
+    except Exception:  # noqa: BLE001
+        pass
     m = sys.modules.get("dask.array.random")
-    if m is not None and hasattr(m, "_cached_states"):
-        m._cached_states.clear()
+    try:
+        if m is not None and hasattr(m, "_cached_states"):
+            cs = m._cached_states
+            if hasattr(cs, "clear"):
+                cs.clear()
+            elif hasattr(cs, "__dict__"):
+                cs.__dict__.clear()
+    except Exception:  # noqa: BLE001
+        pass
